@@ -154,3 +154,17 @@ Proof.
     [apply CombLeafTreeCols.C03_tree_cols2|apply CombLeafTreeLines.C03_tree_lines2]; assumption.
 Qed.
 Print Assumptions C03_trees_combined_leaves.
+
+(* (viii) trees with CachedSource nodes in ANY sound warm state (every state reachable by
+   observations), no ReplaceSource with replacements above a cache: map() still attributes as the
+   freshly built cache-free tree streams - both column settings *)
+From RS Require Proofs.WarmTreeDefs Proofs.WarmTreeMain.
+Theorem C03_trees_with_warm_caches : forall s,
+  ColdCache.ids_distinct s -> Checkers.ChkHist.k2_shape s = false ->
+  RStreamTree.rshape (ColdCache.uncache s) = true -> treeA s = true ->
+  rsmall (ColdCache.uncache s) = true -> BoundsPos.tiny (ColdCache.uncache s) = true ->
+  forall st c, WarmTreeDefs.Sound st s ->
+  attr_of_map (fst (map_of st s c)) (source s) c = WarmTreeMain.reference s c /\
+  WarmTreeDefs.Sound (snd (map_of st s c)) s.
+Proof. exact WarmTreeMain.warm_map. Qed.
+Print Assumptions C03_trees_with_warm_caches.
